@@ -56,7 +56,7 @@ Section Sigma.
     else if negb (check_element G m1) then Reject
     else if negb good2 then Reject
     else if q <=? Z.abs m2 then Reject
-    else match fpowm tg g m2 p with
+    else match fpowm_alias tg g m2 p with     (* result variable aliases the exponent *)
          | None => Throw
          | Some a =>
            match mpz_powm key c p with
